@@ -246,6 +246,75 @@ def h_multiaxis(h, M, N, layout, op):
     h.prove_all_close("scalar-multiple", poly2.coefficients, 2.0 * C, rtol=0, atol=TOL)
 
 
+def _lagrange(nodes, x):
+    out = np.ones(len(nodes))
+    for i, xi in enumerate(nodes):
+        for j, xj in enumerate(nodes):
+            if i != j:
+                out[i] *= (x - xj) / (xi - xj)
+    return out
+
+
+def _basis_values(grid, basis, direction, endpoints, x):
+    """values at x of the basis functions the coefficients refer to (independent of
+    Polynomial.evaluate): cardinal functions of the full node set restricted to the kept
+    nodes, or restricted Chebyshev polynomials."""
+    full = np.asarray(grid.getCompactCoordinates(True, direction), dtype=float)
+    n = size(grid, direction, endpoints)
+    if basis == "Cardinal":
+        lag = _lagrange(full, x)
+        if endpoints:
+            return lag
+        return lag[1:-1] if direction in ("z", "pz") else lag[:-1]
+    out = np.empty(n)
+    for j in range(n):
+        if endpoints:
+            k = j
+            out[j] = math.cos(k * math.acos(max(-1.0, min(1.0, x))))
+        elif direction in ("z", "pz"):
+            k = j + 2
+            out[j] = math.cos(k * math.acos(x)) - (1.0 if k % 2 == 0 else x)
+        else:
+            k = j + 1
+            out[j] = math.cos(k * math.acos(x)) - 1.0
+    return out
+
+
+def h_evaluate_axes(h, M, N, layout, axes):
+    """evaluate(points, axes=subset) on a multi-axis array: each listed axis is evaluated in
+    its own direction/basis, the others are kept."""
+    h.patch_numeric(PM)
+    grid = Grid(M, N, 1.0, 1.0)
+    shape = [2 if b == "Array" else size(grid, d, e) for b, d, e in layout]
+    C = h.reals("c", tuple(shape), -1, 1, strict=False)
+    poly = Polynomial(C.copy(), grid, tuple(b for b, _, _ in layout), tuple(d for _, d, _ in layout),
+                      tuple(e for _, _, e in layout))
+    pts = np.array([[0.3, -0.55], [-0.7, 0.2], [0.45, 0.8]])[:len(axes)]
+    got = np.asarray(poly.evaluate(pts, axes))
+    keep = [i for i in range(len(layout)) if i not in axes]
+    h.prove("shape", Cond(b=got.shape == (pts.shape[1],) + tuple(shape[i] for i in keep)))
+    if got.shape != (pts.shape[1],) + tuple(shape[i] for i in keep):
+        return
+    for p in range(pts.shape[1]):
+        vals = [_basis_values(grid, layout[a][0], layout[a][1], layout[a][2], float(pts[j, p]))
+                for j, a in enumerate(axes)]
+        for kidx in np.ndindex(*[shape[i] for i in keep]):
+            want = 0.0
+            for aidx in np.ndindex(*[shape[a] for a in axes]):
+                w = 1.0
+                for j in range(len(axes)):
+                    w *= vals[j][aidx[j]]
+                if w == 0.0:
+                    continue
+                full = [None] * len(layout)
+                for j, a in enumerate(axes):
+                    full[a] = aidx[j]
+                for j, i in enumerate(keep):
+                    full[i] = kidx[j]
+                want = want + float(w) * C[tuple(full)]
+            h.prove_close("evaluate along selected axes", got[(p,) + kidx], want, rtol=0, atol=TOL * 10)
+
+
 DIRS = [("z", False), ("z", True), ("pz", False), ("pz", True), ("pp", False), ("pp", True)]
 
 
@@ -281,7 +350,17 @@ _MT = _MQ + [dict(M=5, N=5, layout=l, op=op) for op in ("derivative", "toggle", 
     (("Cardinal", "z", True), A, ("Chebyshev", "pp", False)),
 ]]
 
+_AXQ = [dict(M=4, N=3, layout=(A, ("Cardinal", "pz", False), ("Cardinal", "pp", False)), axes=(1, 2)),
+        dict(M=5, N=5, layout=(A, ("Cardinal", "pz", False), ("Chebyshev", "pp", False)), axes=(1, 2)),
+        dict(M=4, N=3, layout=(("Cardinal", "z", False), A, ("Cardinal", "pz", True)), axes=(2,)),
+        dict(M=4, N=5, layout=(("Cardinal", "pp", False), ("Cardinal", "z", True), A), axes=(0, 1)),
+        dict(M=3, N=5, layout=(("Chebyshev", "z", False), ("Cardinal", "pz", False), ("Cardinal", "pp", False)), axes=(2, 0) if False else (0, 2))]
+_AXT = _AXQ + [dict(M=6, N=5, layout=(A, ("Cardinal", "z", False), ("Cardinal", "pz", False), ("Cardinal", "pp", False)), axes=(2, 3)),
+               dict(M=5, N=7, layout=(A, ("Cardinal", "pz", False), ("Cardinal", "pp", False), A), axes=(1, 2))]
+
 HARNESSES = [
+    HarnessDef("evaluate-axes", h_evaluate_axes, _AXQ, _AXT, max_paths=4, timeout_s=120,
+               encodes=[Polynomial.evaluate, Polynomial.cardinal, Polynomial.chebyshev], random_validation=1),
     HarnessDef("roundtrip-evaluate", h_roundtrip_eval, _Q, _T, max_paths=4, timeout_s=120,
                encodes=[Polynomial.changeBasis, Polynomial.evaluate, Polynomial.cardinal,
                         Polynomial.chebyshev, Polynomial.matrix, Polynomial._chebyshevMatrix,
